@@ -13,6 +13,8 @@ HARNESSES = [
     dict(name="sbaseq2k", src=["sbaseq.c"], variant="asan", cflags=_P2K, deadline={"quick": 150, "thorough": 1200}),
     dict(name="sbaseq2k-dbg", src=["sbaseq.c"], variant="asan-dbg", cflags=_P2K + ["-DSBASEQ_DEBUG_ONLY=1"],
          tiers=["thorough"], deadline={"thorough": 600}),
+    # concurrent half: 2-3 threads on a multi-threaded allocator, every interleaving at the per-bin mutexes
+    dict(name="sbamt", src=["sbamt.c"], variant="sched", wrap=True, deadline={"quick": 150, "thorough": 1500}),
 ]
 
 EXPLANATION = (
@@ -25,6 +27,7 @@ EXPLANATION = (
 )
 
 ASSUMPTIONS = [
+    "concurrent half (sbamt): 2-3 threads (same-bin acquire/release, two blocks in different classes, realloc small->large->small, 512-class page turnover) on an allocator created multi_threaded=true over a counting parent; preemption bound 4 (quick) / 6 (thorough) for two threads, 2 / 3 for three; sequentially consistent interleavings at the per-bin mutexes (DESIGN 4.4); a block shrunk in place from a parent-served allocation stays a parent block (allocator_sba.c) and is not counted as active",
     "bounds: 9 slots (never more live blocks than the depth bound); sizes {1,32,33,64,65,256,257,512,513,700}; the full "
     "ten-size alphabet (every (old,new) realloc pair incl. 0 and NULL, ~100 symbols) is explored to depth 5 (quick) / 6 "
     "(thorough) on both page sizes; the page mechanics (exhaustion, turn-over, free-list purge when a page goes back, "
